@@ -80,7 +80,7 @@ CLAIMED = {
     "C13": (
         "other",
         "Cache transparency as a contract over ARBITRARY cache states: _YearStartCacheEntry validation/packing, _YearMonthDayCalculator._get_start_of_year_in_days and the Hebrew calculator's two caches return the uncached computation for every cache content satisfying the representation invariant 'every valid entry stores the computed value of its own key' (and re-establish the invariant), so no history of earlier calls can change a result. Thread schedules are outside this family: entries are single immutable ints/objects written by one store (argument from an assumption about CPython's atomic list item store, not a proof).",
-        "Trusted: A1-A3, A10 (atomic list-item stores under the GIL). Also under contract: the calendar registry (THE calendar of an id from every registry state, all factories), _PyodaFormatInfo lookups (writable culture: new object, nothing pre-existing written) and the 512-slot zone-interval cache (get_zone_interval from ANY state of the slot it reads -- empty, own period, colliding period -- answers with the walk of the requested period's own node chain and refills the slot of that period; chains of 1..3 intervals; and END TO END with the real _create_node over an abstract underlying map of 4 consecutive intervals with unknown boundaries: a miss answers with the map's own interval for the instant -- 'the caching zone returns exactly what the underlying zone returns' for every period meeting at most three transitions). BOUNDED STAND-IN (not counted): every history of up to 6 lookups over 4 keys for the generic _Cache (sizes 1..3), colliding shuffled histories against the 512-slot zone-interval cache vs the wrapped zone, repeated provider lookups, pattern/format-info lookups on cultures modified between lookups vs a history-free evaluation.",
+        "Trusted: A1-A3, A10 (atomic list-item stores under the GIL). Also under contract: the provider map (DateTimeZoneCache lookup from every state of the entry: fetched from the source exactly once, stored under its own id, the stored object returned on every later lookup), the calendar registry (THE calendar of an id from every registry state, all factories), _PyodaFormatInfo lookups (writable culture: new object, nothing pre-existing written) and the 512-slot zone-interval cache (get_zone_interval from ANY state of the slot it reads -- empty, own period, colliding period -- answers with the walk of the requested period's own node chain and refills the slot of that period; chains of 1..3 intervals; and END TO END with the real _create_node over an abstract underlying map of 4 consecutive intervals with unknown boundaries: a miss answers with the map's own interval for the instant -- 'the caching zone returns exactly what the underlying zone returns' for every period meeting at most three transitions). BOUNDED STAND-IN (not counted): every history of up to 6 lookups over 4 keys for the generic _Cache (sizes 1..3), colliding shuffled histories against the 512-slot zone-interval cache vs the wrapped zone, repeated provider lookups, pattern/format-info lookups on cultures modified between lookups vs a history-free evaluation.",
         "contract-based deductive verification with a representation invariant over arbitrary cache contents; schedules by stated assumption only",
         "DESIGN.md §4 C13",
     ),
